@@ -170,6 +170,15 @@ namespace xsimd
     XSIMD_INLINE auto
     aligned_allocator<T, A>::allocate(size_type n, const void*) -> pointer
     {
+        // sizeof(T) * n must be representable, otherwise a too small block would be returned
+        if (n > max_size())
+        {
+#if defined(_CPPUNWIND) || defined(__cpp_exceptions)
+            throw std::bad_alloc();
+#else
+            return nullptr;
+#endif
+        }
         pointer res = reinterpret_cast<pointer>(aligned_malloc(sizeof(T) * n, A));
 #if defined(_CPPUNWIND) || defined(__cpp_exceptions)
         if (res == nullptr)
